@@ -855,6 +855,55 @@ func runC08(r *Run) {
 			}
 		}
 		r.atLeast("appList copies at mount time", nm, 2)
+		// the prefix a sub-app is recorded under is the path its routes are registered under: register puts a slash in
+		// front of a pattern that lacks one, so the recorded key needs it too (App.ErrorHandler compares it with the path)
+		for _, name := range []string{"(*App).mount", "(*Group).mount"} {
+			mf := r.Fn("", name)
+			var prefixParam ssa.Value
+			for _, p := range mf.Params {
+				if p.Name() == "prefix" {
+					prefixParam = p
+				}
+			}
+			r.need(prefixParam != nil, name+"(prefix, subApp)")
+			var ups []ssa.Instruction
+			withHelpers(func() {
+				ups = instrsWhere(mf, func(in ssa.Instruction) bool { _, ok := in.(*ssa.MapUpdate); return ok })
+			})
+			for _, in := range ups {
+				mu := in.(*ssa.MapUpdate)
+				if !loadOfField(mu.Map, "mountFields.appList") {
+					continue
+				}
+				slashed := dependsOn(mu.Key, func(v ssa.Value) bool {
+					switch x := v.(type) {
+					case *ssa.BinOp: // "/" + prefix
+						if x.Op == token.ADD {
+							if s, ok := constString(asConst(x.X)); ok && s == "/" {
+								return dependsOn(x.Y, func(y ssa.Value) bool { return y == prefixParam }) != nil
+							}
+						}
+					case *ssa.Call: // getGroupPath(base, prefix) puts the slash in front of its second argument
+						if calleeName(&x.Call) == fiberMod+".getGroupPath" && len(x.Call.Args) == 2 {
+							return dependsOn(x.Call.Args[1], func(y ssa.Value) bool { return y == prefixParam }) != nil
+						}
+					}
+					return false
+				}) != nil
+				// … and it is the very prefix the mount route is registered under (normalised before both uses)
+				regSame := false
+				for _, rc := range callsMatching(mf, false, nameHasSuffix("App).register")) {
+					regPath := rc.Common.Args[2]
+					if dependsOn(mu.Key, func(v ssa.Value) bool { return v == regPath }) != nil {
+						regSame = true
+					}
+				}
+				r.check(regSame, name+":recorded-prefix-is-the-registered-one", r.pos(in), "the recorded key is built from the value the mount route is registered with",
+					name+" records the sub-app under another spelling of the prefix than the one its mount route is registered with (e.g. before the trailing slash is cut or the empty prefix becomes \"/\"): Use(sub) overwrites the app's own entry \"\" and the sub-app's routes are never spliced in; Use(\"/api/\", sub) is recorded under \"/api/\"")
+				r.check(slashed, name+":recorded-prefix-has-leading-slash", r.pos(in), "the recorded prefix went through the same leading-slash normalisation as the registered route",
+					name+" records the sub-app under the prefix as written while its routes are registered with a leading slash: after Use(\"api\", sub) the routes answer /api/… but the key is \"api\", which no request path starts with — the sub-app's error handler is never chosen")
+			}
+		}
 	})
 
 	r.rule("R7", "the mounted handler is chosen the way routes are matched: when registration folds patterns to lower case (unless CaseSensitive), the candidate test folds path and prefix too (E5)", func() {
